@@ -15,16 +15,16 @@ from .c02 import check_rollback
 
 LEVEL = 'fault_enumeration'
 BUDGET_S = {'quick': 220, 'thorough': 1500}
-FAULT_OPS = ('mkdir', 'makedirs', 'rename', 'replace', 'gzip-w', 'gzip-data')
+FAULT_OPS = ('mkdir', 'makedirs', 'rename', 'replace', 'gzip-w', 'gzip-data', 'rmdir')
 BOUNDS = {
     'quick': 'universe U7; skeleton families A3, A4, A5a, A5b, A8 (swap), A9 (function lists its own output directory, then reads an input that changed), N3 with success / caught failure modes; histories X, B.X, '
              'B.M.X then one more build; in build X one OSError(EIO) at the j-th call among the library\'s mkdir / makedirs / '
-             'rename / replace / open-for-write of the cache, j symbolic (every position reached through feasibility queries); '
+             'rename / replace / rmdir (inside a call) / open-for-write of the cache, j symbolic (every position reached through feasibility queries); '
              'user code catches it or not (catch hole of the skeleton)',
     'thorough': 'wider holes and two-mutation prefixes',
 }
 ASSUMPTIONS = [
-    'faults inside commit / rollback / error handling (remove, rmdir, rmtree) are outside the property and not injected',
+    'faults inside commit / rollback / error handling (remove, rmtree, and rmdir outside a build_file / subbuild call) are outside the property and not injected; rmdir inside a call (making room for an output) is injected',
     'reference for a caught fault: the API call in progress fails in setup with OSError and has no effect at all',
 ]
 WITNESSES = {'quick': ['fault-propagated-rollback', 'fault-caught-build-continued', 'fault-in-cache-write', 'fault-in-backup'],
@@ -41,6 +41,7 @@ def families(tier):
         {'name': 'A4', 'params': {'hist': 'BMX', 'kinds': ['is_dir', 'list_dir'], 'roles': ['o'], 'targets': ['o/d/g'], 'modes': ['ok'],
                                   'mut_paths': ['o/d', 'o/d/g']}, 'weight': 2},
         {'name': 'A8', 'params': {'hist': 'BX', 'kinds': ['is_dir']}, 'weight': 2},
+        {'name': 'A8d', 'params': {'hist': 'BX', 'kinds': ['is_dir'], 'universe': ['o', 'o/z']}, 'weight': 1},
         # three and four new directory levels below the output root: a fault at the deeper mkdirs
         {'name': 'A3', 'params': {'hist': 'X', 'kinds': ['is_dir'], 'roles': ['o'], 'targets': ['o/d/e/h', 'o/d/e/i/j'], 'modes': ['ok'],
                                   'universe': ['o', 'o/d']}, 'weight': 1},
@@ -82,6 +83,9 @@ class Fault:
 
     def hook(self, op, args, mutating):
         if op not in self.ops or self.fired is not None or self.root_failed:
+            return
+        if op == 'rmdir' and not self.side.api_stack:
+            # rmdir outside a build_file / subbuild call is commit or rollback work: outside the property
             return
         self.count += 1
         if bool(self.j == self.count):
@@ -133,10 +137,14 @@ def harness(eng, fam, P):
                     eng.witness('fault-propagated-rollback')
                     eng.check(PR + '.propagated-exception-is-oserror-or-user', True, sig)
                     check_rollback(eng, w, d, pre, prev_created, (PR,) + sig)
+                    d.any_oserror = True
                     d.check_same(PR + '.failed', sig)
+                    d.any_oserror = False
                 else:
                     eng.witness('fault-caught-build-continued')
+                    d.any_oserror = True
                     d.check_same(PR + '.caught', sig)
+                    d.any_oserror = False
                     eng.check(PR + '.temp-dir-left', not w.tmp_leftovers(), sig)
                     eng.check(PR + '.cache-file-written', w.fs.kind(w.cache) == FILE, sig)
                 # ---- one more build without faults: bookkeeping and disk must be in step
